@@ -19,6 +19,10 @@ package c18
 
 import (
 	"bytes"
+
+	gotreecmd "github.com/evolbioinfo/gotree/cmd"
+	"github.com/spf13/cobra"
+
 	"crypto/sha256"
 	"fmt"
 	"go/ast"
@@ -34,7 +38,7 @@ import (
 	"strings"
 )
 
-const extractorVersion = "c18-extract-10"
+const extractorVersion = "c18-extract-13"
 
 var excludedPkgs = map[string]string{
 	"draw":     "graphical output",
@@ -436,6 +440,26 @@ func repoHash(repo string) string {
 	return fmt.Sprintf("%x", h.Sum(nil))[:24]
 }
 
+// the runnable commands of the live command tree (cmd.RootCmd of the repository the harness is built against)
+func liveCommands() []string {
+	var out []string
+	var walk func(c *cobra.Command)
+	walk = func(c *cobra.Command) {
+		for _, sub := range c.Commands() {
+			if sub.Name() == "help" || sub.Name() == "completion" || strings.HasPrefix(sub.Name(), "__") {
+				continue
+			}
+			if sub.Runnable() {
+				out = append(out, strings.TrimPrefix(sub.CommandPath(), "gotree "))
+			}
+			walk(sub)
+		}
+	}
+	walk(gotreecmd.RootCmd)
+	sort.Strings(out)
+	return out
+}
+
 func render(sites, sources []siteRec, typeErrs []string, hooks []string, depSites, depSources []siteRec, depNotes []string) string {
 	var b strings.Builder
 	b.WriteString("-- GENERATED by harness/c18/extract.go (vh gen-tables) from the working tree of the repository; do not edit.\n")
@@ -470,9 +494,26 @@ func render(sites, sources []siteRec, typeErrs []string, hooks []string, depSite
 		}
 		b.WriteString(leanStr(e))
 	}
-	b.WriteString("]\n\n-- goalign (module cache), the part reachable from the repository's code (calls through an interface reach\n-- every method of that name): scope \"dep\"\n")
+	b.WriteString("]\n\n-- goalign, gostats, bitset (module cache), the part reachable from the repository's code (calls through an interface reach\n-- every method of that name): scope \"dep\"\n")
 	w("depSites", depSites)
 	w("depSources", depSources)
+	b.WriteString("-- the runnable commands of the live cmd.RootCmd (the root console, help and completion left out)\n")
+	b.WriteString("def commands : List String := [")
+	for i, e := range liveCommands() {
+		if i > 0 {
+			b.WriteString(", ")
+		}
+		b.WriteString(leanStr(e))
+	}
+	b.WriteString("]\n\n")
+	b.WriteString("-- the dependency packages that were loaded and scanned\ndef depPackages : List String := [")
+	for i, e := range lastDepPkgs {
+		if i > 0 {
+			b.WriteString(", ")
+		}
+		b.WriteString(leanStr(e))
+	}
+	b.WriteString("]\n\n")
 	b.WriteString("def depNotes : List String := [")
 	for i, e := range depNotes {
 		if i > 0 {
